@@ -292,8 +292,8 @@ def coq_check_cases(name, header, exprs, shard=250, timeout=400):
         tmo = tmo or timeout
         body = header + '\n' + IDX_FALSE + 'Eval vm_compute in idx_false [%s].\n' % ';\n'.join(es)
         rc, out = coq_eval('%s_%d' % (name, base), body, timeout=tmo)
-        if rc == 124 and depth < 3:
-            # a shard that ran out of time (a loaded machine, or unusually heavy cases) is not evidence of anything:
+        if (rc == 124 or 'out of memory' in out[-400:].lower() or 'Stack overflow' in out[-400:]) and depth < 4:
+            # a shard that ran out of time or memory (a loaded machine, or unusually heavy cases) is not evidence of anything:
             # evaluate it again in halves with a doubled time limit before giving up
             if len(es) > 1:
                 h = len(es) // 2
